@@ -207,7 +207,10 @@ def run(prop, tier):
             for c, v in res['classes'].items():
                 a['classes'][c] = a['classes'].get(c, 0) + v
             for c, v in res['cov'].items():
-                a['cov'][c] = a['cov'].get(c, 0) + v
+                if c.endswith('_max') or c in ('states', 'closure_depth', 'graph_depth_completed', 'graph_frontier_left'):
+                    a['cov'][c] = max(a['cov'].get(c, 0), v)      # measured by a single worker, not additive
+                else:
+                    a['cov'][c] = a['cov'].get(c, 0) + v
             a['fails'].extend(res['fails'])
             a['samples'].extend(res['samples'])
             a['maxline'] = max(a['maxline'], res['maxline'])
@@ -337,7 +340,10 @@ def _coverage(mod, subs, agg, per_sub, tier, jobs):
     tot = {}
     for a in agg.values():
         for c, v in a['cov'].items():
-            tot[c] = tot.get(c, 0) + v
+            if c.endswith('_max') or c in ('closure_depth', 'graph_depth_completed', 'graph_frontier_left'):
+                tot[c] = max(tot.get(c, 0), v)
+            else:
+                tot[c] = tot.get(c, 0) + v
     for key in ('states', 'transitions', 'traces_validated_against_impl', 'schedules',
                 'scheduling_points', 'histories'):
         if key in tot:
